@@ -99,6 +99,8 @@ func runC08(c *Ctx) {
 		}
 		trs := in.Explore(fn, symArgs(fn), 3000)
 		var keyBad, missBad, unk []string
+		var noLoadRets [][]string
+		keyRootsAll := map[string]bool{}
 		nStore, nHit, nMiss := 0, 0, 0
 		for _, t := range trs {
 			if t.Cut != "" {
@@ -125,6 +127,11 @@ func runC08(c *Ctx) {
 					asserted = append(asserted, keyOf(e.Args[0]))
 				}
 			}
+			for _, ld := range loads {
+				for r := range rootsOf(keyOf(ld.Args[1])) {
+					keyRootsAll[r] = true
+				}
+			}
 			if t.Converged {
 				continue
 			}
@@ -142,6 +149,11 @@ func runC08(c *Ctx) {
 				continue
 			}
 			nMiss++
+			if len(loads) == 0 && len(stores) == 0 && t.Ret != nil {
+				// a path that answers without consulting the cache: what it returns must be a
+				// function of the key's inputs only (a second memo keyed by less is not transparent)
+				noLoadRets = append(noLoadRets, flattenKeys(t.Ret))
+			}
 			if len(stores) == 0 {
 				// not storing at all is harmless for transparency
 				continue
@@ -182,6 +194,18 @@ func runC08(c *Ctx) {
 				}
 			}
 		}
+		for _, rk := range noLoadRets {
+			var extra []string
+			for r := range rootsOf(rk...) {
+				if !keyRootsAll[r] {
+					extra = append(extra, r)
+				}
+			}
+			sort.Strings(extra)
+			if len(extra) > 0 {
+				keyBad = append(keyBad, fmt.Sprintf("a path answers without consulting the cache, from %v, which is not part of the cache key: the answer depends on what an earlier call left there", extra))
+			}
+		}
 		name := fnName(fn)
 		if len(unk) > 0 {
 			c.Unk("C08-KEY", name, "key", fn.Pos(), uniqJoin(unk, 2))
@@ -220,6 +244,7 @@ func runC08(c *Ctx) {
 	}
 	runC08Copy(c, gname)
 	runC08Once(c, g)
+	runC08Publish(c, g, users)
 }
 
 func flattenKeys(v AVal) []string {
@@ -341,4 +366,162 @@ func runC08Once(c *Ctx, g *ssa.Global) {
 		}
 	}
 	c.Check(len(bad) == 0 && n >= 1, "C08-ONCE", fnNameGlobal(g), "assignments", g.Pos(), fmt.Sprintf("%d assignments, all in init or under once.Do", n), uniqJoin(bad, 3))
+}
+
+// runC08Publish: a value handed to the cache must be complete when it is stored. In every
+// function that calls Store on the type cache, no instruction reachable after the Store
+// writes into memory that the stored value shares (the slices/maps/pointers held in the
+// fields of the struct that was stored). A concurrent caller that hits the entry in between
+// would be judged by half-filled information — a result that depends on the history.
+func runC08Publish(c *Ctx, g *ssa.Global, users []*ssa.Function) {
+	p := c.P
+	c.Rule("C08-PUBLISH", "a value stored in the type cache is complete: nothing reachable after the Store writes into memory shared with the stored value", 1)
+	n := 0
+	for _, fn := range users {
+		for _, b := range fn.Blocks {
+			for idx, ins := range b.Instrs {
+				call, ok := ins.(ssa.CallInstruction)
+				if !ok || !call.Common().IsInvoke() || call.Common().Method.Name() != "Store" {
+					continue
+				}
+				ld, ok := call.Common().Value.(*ssa.UnOp)
+				if !ok || ld.X != g {
+					continue
+				}
+				n++
+				c.Sites++
+				val := call.Common().Args[1]
+				// memory owned by the stored value
+				owned := map[ssa.Value]bool{}
+				allocs := map[*ssa.Alloc]bool{}
+				var addVal func(v ssa.Value)
+				addVal = func(v ssa.Value) {
+					if v == nil || owned[v] {
+						return
+					}
+					switch x := v.(type) {
+					case *ssa.MakeInterface:
+						addVal(x.X)
+						return
+					case *ssa.ChangeType:
+						addVal(x.X)
+						return
+					case *ssa.UnOp:
+						if x.Op == token.MUL {
+							if a, ok := x.X.(*ssa.Alloc); ok {
+								allocs[a] = true
+								return
+							}
+						}
+					case *ssa.Alloc:
+						allocs[x] = true
+						owned[x] = true
+						return
+					}
+					switch v.Type().Underlying().(type) {
+					case *types.Slice, *types.Map, *types.Pointer:
+						owned[v] = true
+					}
+				}
+				addVal(val)
+				for changed := true; changed; {
+					changed = false
+					before := len(owned) + len(allocs)
+					for _, b2 := range fn.Blocks {
+						for _, i2 := range b2.Instrs {
+							switch x := i2.(type) {
+							case *ssa.Store:
+								if fa, ok := x.Addr.(*ssa.FieldAddr); ok {
+									if a, ok := fa.X.(*ssa.Alloc); ok && allocs[a] {
+										addVal(x.Val)
+									}
+								}
+							case *ssa.UnOp:
+								if x.Op == token.MUL {
+									if fa, ok := x.X.(*ssa.FieldAddr); ok {
+										if a, ok := fa.X.(*ssa.Alloc); ok && allocs[a] {
+											addVal(x)
+										}
+									}
+								}
+							case *ssa.Slice:
+								if owned[x.X] {
+									addVal(x)
+								}
+							}
+						}
+					}
+					if len(owned)+len(allocs) != before {
+						changed = true
+					}
+				}
+				rootOwned := func(addr ssa.Value) bool {
+					for d := 0; d < 8; d++ {
+						switch x := addr.(type) {
+						case *ssa.IndexAddr:
+							if owned[x.X] {
+								return true
+							}
+							addr = x.X
+						case *ssa.FieldAddr:
+							if owned[x.X] {
+								return true
+							}
+							addr = x.X
+						default:
+							return false
+						}
+					}
+					return false
+				}
+				// instructions reachable after the call
+				after := map[*ssa.BasicBlock]bool{}
+				var stack []*ssa.BasicBlock
+				for _, s := range b.Succs {
+					if !after[s] {
+						after[s] = true
+						stack = append(stack, s)
+					}
+				}
+				for len(stack) > 0 {
+					x := stack[len(stack)-1]
+					stack = stack[:len(stack)-1]
+					for _, s := range x.Succs {
+						if !after[s] {
+							after[s] = true
+							stack = append(stack, s)
+						}
+					}
+				}
+				var bad []string
+				check := func(i2 ssa.Instruction) {
+					switch x := i2.(type) {
+					case *ssa.Store:
+						if rootOwned(x.Addr) {
+							bad = append(bad, "store at "+p.Pos(x.Pos())+" writes into the value after it was put into the cache")
+						}
+					case *ssa.MapUpdate:
+						if owned[x.Map] {
+							bad = append(bad, "map update at "+p.Pos(x.Pos())+" writes into the value after it was put into the cache")
+						}
+					}
+				}
+				for j := idx + 1; j < len(b.Instrs); j++ {
+					check(b.Instrs[j])
+				}
+				for b2 := range after {
+					for _, i2 := range b2.Instrs {
+						if b2 == b {
+							// whole block reachable again through a cycle
+						}
+						check(i2)
+					}
+				}
+				c.Check(len(bad) == 0, "C08-PUBLISH", fnName(fn), "complete-at-store", call.Pos(), "nothing writes into the stored value after the Store", uniqJoin(bad, 3)+": a concurrent validation of the same type that hits the entry meanwhile is judged by incomplete field information")
+			}
+		}
+	}
+	if n == 0 {
+		c.OK("C08-PUBLISH", "-", "no-store", token.NoPos, "the cache is never stored to (trivially complete)")
+	}
 }
